@@ -25,6 +25,9 @@ Maps == [ any3 |-> VM(<<K(kA), K(kB), K(kC)>>, <<VI(1), VI(2), VI(3)>>),
           mss3 |-> VMg(<<K(kA), K(kB), K(kC)>>, <<VS(<<120>>), VS(<<121>>), VS(<<122>>)>>, "mss"),
           mis3 |-> VMg(<<VI(10), VI(9), VI(2)>>, <<VS(<<120>>), VS(<<121>>), VS(<<122>>)>>, "mis"),
           any4 |-> VM(<<K(kA), K(kB), K(kC), K(kD)>>, <<VI(1), VI(2), VI(3), VI(4)>>),
+          \* the empty string is a key like any other; 64-bit keys beyond 2^53 that are close together
+          emptykey |-> VM(<<K(<<>>), K(kA), K(kB)>>, <<VI(0), VI(1), VI(2)>>),
+          big64 |-> VMg(<<VI(0), VI(1), VI(7)>>, <<VS(<<120>>), VS(<<121>>), VS(<<122>>)>>, "mi64big"),
           nest |-> VM(<<K(<<112>>), K(<<113>>)>>, <<VM(<<K(kA), K(kB)>>, <<VI(1), VI(2)>>), VM(<<K(kC), K(kD)>>, <<VI(3), VI(4)>>)>>) ]
 
 Perms(n) == {p \in [1..n -> 1..n] : \A i, j \in 1..n : i # j => p[i] # p[j]}
@@ -71,7 +74,7 @@ Seeds == {<<68, 44, 32, 100, 32, 77, 32, 89>>, <<89, 45, 109, 45, 100, 32, 72, 5
 DateCases == {[fam |-> "date", f |-> f, d |-> d] : f \in Fmts \cup Seeds, d \in {1136214245, 1709210096}}    \* 2006-01-02 15:04:05, 2024-02-29 12:34:56
 
 \* ---- values that carry memory addresses ----------------------------------------------------------------
-AddrCases == {[fam |-> "addr", kind |-> k, prog |-> pr] : k \in {"ptrstruct", "ptrptr", "func", "chan"},
+AddrCases == {[fam |-> "addr", kind |-> k, prog |-> pr] : k \in {"ptrstruct", "ptrptr", "func", "chan", "privptr"},
                  pr \in {"print", "concat", "join", "default", "length"}}
 AddrProg(pr) == CASE pr = "print"   -> <<PrintS(Var("v"))>>
                   [] pr = "concat"  -> <<PrintS(Bin("~", LS(<<120>>), Var("v")))>>
